@@ -85,6 +85,11 @@ class Sym:
                 self.bind_pat(pat["ps"][0], term, env)
         elif k == "Guard":
             self.bind_pat(pat["p"], term, env)
+        elif k == "Slice":
+            for i, q in enumerate(pat["pre"]):
+                self.bind_pat(q, ("index", term, ("lit", i)), env)
+            for i, q in enumerate(pat["suf"]):
+                self.bind_pat(q, ("index", term, ("lit", i - len(pat["suf"]))), env)
 
     def block(self, node, env):
         stmts = []
@@ -171,7 +176,7 @@ class Sym:
         if k == "Return":
             return ("return", self.ev(n["e"], env) if "e" in n else ("tuple", ()))
         if k == "Closure":
-            return ("closure", n["d"])
+            return ("closure", n["d"], tuple(self.ev(u, env) for u in n.get("up", [])))
         if k in ("Const", "Static", "ConstParam"):
             return ("const", n["d"])
         if k == "FnRef":
